@@ -31,12 +31,12 @@ def shards(tier, seed):
     out = []
     n = 9 if tier == "quick" else 18
     for i in range(n):
-        out.append({"kind": "random", "mode": ("sync", "noise", "pct")[i % 3], "runs": 80 if tier == "quick" else 2500,
+        out.append({"kind": "random", "mode": ("sync", "noise", "pct")[i % 3], "runs": 80 if tier == "quick" else 10000,
                     "transport": ("pipe", "tcp")[i % 2]})
     nsw = 6 if tier == "quick" else 12
     for i in range(nsw):
         out.append({"kind": "sweep", "part": i, "parts": nsw, "ks": [1, 2] if tier == "quick" else [1, 2, 3, 5]})
-    out.append({"kind": "multi", "runs": 12 if tier == "quick" else 300})
+    out.append({"kind": "multi", "runs": 12 if tier == "quick" else 1500})
     return out
 
 
